@@ -20,7 +20,7 @@ import (
 
 func c16Stream(t *rapid.T, label string) *streamModel {
 	o := defaultStreamOpts()
-	o.smallPSI, o.maxPESLen, o.maxUnits, o.zeroPayload = true, 900, 3, true
+	o.smallPSI, o.maxPESLen, o.maxUnits, o.zeroPayload, o.hugePES = true, 900, 3, true, true
 	_ = label
 	return drawStream(t, o)
 }
@@ -43,6 +43,7 @@ func TestC16Aliasing(t *testing.T) {
 		sched := rapid.SliceOfN(rapid.Bool(), 64, 64).Draw(t, "schedule")
 		remux := rapid.SliceOfN(rapid.Bool(), 64, 64).Draw(t, "remux")
 		remuxed := 0
+		big := false
 		var held []*heldResult
 		doneA, doneB := false, false
 		calls := 0
@@ -86,9 +87,14 @@ func TestC16Aliasing(t *testing.T) {
 			} else if err != nil {
 				t.Fatalf("%s: error %v", what, err)
 			}
-			verify(what)
+			if !big || i%16 == 0 {
+				// (with a 64 KiB result held, re-rendering everything after every call is quadratic: every 16th call and the end)
+				verify(what)
+			}
 			if err == nil {
-				held = append(held, &heldResult{what: what, v: v, snap: obs.Canon(v)})
+				h := &heldResult{what: what, v: v, snap: obs.Canon(v)}
+				big = big || len(h.snap) > 20000
+				held = append(held, h)
 			}
 			if usePackets && remux[i%64] && len(held) > 0 {
 				// the caller remuxes: it hands the adaptation field of a packet it received to a Muxer whose writer fails in
